@@ -38,9 +38,23 @@ def main():
     except common.HarnessTimeout as e:
         print(f'harness timeout: {e}')
         sys.exit(2)
-    except Exception:
+    except Exception as exc:
         import traceback
+        text = ''.join(traceback.format_exception(type(exc), exc, exc.__traceback__))
         traceback.print_exc()
+        repo_mark = os.path.join(os.path.realpath(common.REPO), 'mido') + os.sep
+        if repo_mark in text or (os.sep + 'mido' + os.sep) in text.replace(HERE, ''):
+            # the exception was raised INSIDE the library under test, at a place where the check relies on the library not
+            # raising (building legal objects, reading back what was written): the correspondence no longer checks.  There
+            # is no replayable input, only the traceback: reported the way the brief prescribes for that situation.
+            path = ck._write_replay('no-failing-input-found', {
+                'explanation': 'the library raised inside the check, at a call the check relies on not to raise on the unchanged '
+                               'tree; the correspondence of this property could not be completed',
+                'broken_obligations': ['correspondence run of ' + args.prop + ' (harness/props/' + args.prop + '.py)'],
+                'exception': type(exc).__name__ + ': ' + str(exc)[:500],
+                'traceback': text[-6000:]})
+            print(f'VIOLATION property={args.prop} replay={path} no-failing-input-found')
+            sys.exit(1)
         print('harness error (unexpected exception in the harness itself): no verdict')
         sys.exit(2)
     sys.exit(rc)
